@@ -1,3 +1,6 @@
+// Command memhierdbg replays one memhier case (a Case JSON, or a replays/*.json file written by
+// checks C16/C17) and prints every message that crosses a port of the stack, then the requester's
+// records. Usage: memhierdbg <file>
 package main
 
 import (
@@ -40,7 +43,14 @@ func (h hk) Func(ctx hooking.HookCtx) {
 func main() {
 	b, _ := os.ReadFile(os.Args[1])
 	var c memhier.Case
-	if err := json.Unmarshal(b, &c); err != nil {
+	var rep struct {
+		Replay struct {
+			Case *memhier.Case `json:"case"`
+		} `json:"replay"`
+	}
+	if err := json.Unmarshal(b, &rep); err == nil && rep.Replay.Case != nil {
+		c = *rep.Replay.Case
+	} else if err := json.Unmarshal(b, &c); err != nil {
 		panic(err)
 	}
 	timing.UseSequentialIDGenerator()
